@@ -58,7 +58,7 @@ class ExprMixin:
             if isinstance(h, HList):
                 if h.items is not None:
                     return z3.BoolVal(len(h.items) > 0)
-                return z3.Length(h.seq) > 0
+                return z3.BoolVal(True) if h.tail else z3.Length(h.seq) > 0
             if isinstance(h, HDict):
                 if h.present is None:
                     return z3.BoolVal(len(h.items) > 0)
@@ -822,7 +822,12 @@ class ExprMixin:
 
     def abstract_comprehension(self, st, node, gen, itv, kind):
         """[f(x) for x in xs] over a symbolic xs: result is map$<elt>(xs, captured...)"""
-        seq = self.as_seq(st, itv)
+        tail = []
+        if isinstance(itv, VRef) and isinstance(st.deref(itv), HList) and st.deref(itv).items is None:
+            seq = st.deref(itv).seq
+            tail = list(st.deref(itv).tail)
+        else:
+            seq = self.as_seq(st, itv)
         if seq is None or gen.ifs or kind == "dict":
             raise Unsupported(f"comprehension over {itv!r} at line {node.lineno}")
         key = ast.dump(node.elt) + "|" + ast.dump(gen.target)
@@ -845,8 +850,33 @@ class ExprMixin:
         res = f(seq, *args, z3.IntVal(st.world))
         st.assume(z3.Length(res) == z3.Length(seq))
         self.opaque_used[f"comprehension {ast.unparse(node.elt)} (element function uninterpreted, assumed total)"] = 1
-        st.ghost.setdefault("__maps__", {})[name] = (ast.unparse(node.elt), seq)
-        return [(st, st.alloc(HList(seq=res)))]
+        st.ghost["__maps__"] = dict(st.ghost.get("__maps__", {}))
+        st.ghost["__maps__"][name] = (ast.unparse(node.elt), seq)
+        # concretely appended elements: evaluate the element expression on each
+        results = [(st, [])]
+        saved = {n: st.locals.get(n) for n in tnames}
+        for item in tail:
+            nxt = []
+            for s1, acc in results:
+                if isinstance(acc, Raised):
+                    nxt.append((s1, acc))
+                    continue
+                for s2, o in self.assign(gen.target, item, s1):
+                    if o is not None:
+                        nxt.append((s2, o))
+                        continue
+                    for s3, ev in self.ev(node.elt, s2):
+                        nxt.append((s3, ev if isinstance(ev, Raised) else acc + [ev]))
+            results = nxt
+        out = []
+        for s1, acc in results:
+            for n, old in saved.items():
+                if old is None:
+                    s1.locals.pop(n, None)
+                else:
+                    s1.locals[n] = old
+            out.append((s1, acc if isinstance(acc, Raised) else s1.alloc(HList(seq=res, tail=acc))))
+        return out
 
 
 class _Done:
